@@ -73,6 +73,9 @@ VARIANTS = {
   fault('table-check-leaves-cursor', F(BT, 'Table.check_interrupts_paragraph', "        lines.set_pos(anchor)\n", ''), 'R-INT-COND'),
  ],
  'C04': [
+  fault('thematic-break-mixed-characters', S(BT, r"pattern = re.compile(r' {0,3}(?:([-_*])\s*?)(?:\1\s*?){2,}$')", r"pattern = re.compile(r' {0,3}[-_*](?:[ \t]*[-_*]){2,}[ \t]*$')"), 'R-MARKER-CLAIM'),
+  fault('item-constructor-cuts-task-marker', F(BT, 'ListItem.__init__', "        self.children = tokenizer.make_tokens(parse_buffer)\n",
+                                               "        for entry in parse_buffer:\n            if isinstance(entry[1], list) and entry[1] and entry[1][0].startswith('[x] '):\n                entry[1][0] = entry[1][0][4:]\n        self.children = tokenizer.make_tokens(parse_buffer)\n"), 'R-BUFFER-INTACT'),
   fault('quote-filters-token-list', F(BT, 'Quote.read', 'tokenizer.tokenize_block(line_buffer, _token_types, start_line=start_line)',
                                       'tokenizer.tokenize_block(line_buffer, [t for t in _token_types if t is not Table], start_line=start_line)'), ('R-NEST-SAME', 'token-list')),
   fault('listitem-disables-table-interrupt', F(BT, 'ListItem.read', '        parse_buffer = tokenizer.tokenize_block(line_buffer, _token_types, start_line=content_start_line)\n',
@@ -83,6 +86,7 @@ VARIANTS = {
   fault('quote-tokenizes-in-constructor', [F(BT, 'Quote.__init__', 'self.children = tokenizer.make_tokens(parse_buffer)', 'self.children = tokenizer.make_tokens(tokenizer.tokenize_block(parse_buffer, _token_types))')], 'R-NEST-PHASE'),
  ],
  'C05': [
+  fault('document-strips-outer-newlines', F(BT, 'Document.__init__', 'lines = lines.splitlines(keepends=True)', "lines = lines.strip('\\n').splitlines(keepends=True)"), 'R-NORMAL-FORM'),
   fault('htmlblock-stale-end-cond', F(BT, 'HtmlBlock.start', "        if match_obj is not None and match_obj.group(1).casefold() in span_token._tags:\n            cls._end_cond = None\n",
                                       "        if match_obj is not None and match_obj.group(1).casefold() in span_token._tags:\n"), 'R-SCRATCH'),
   fault('heading-closing-conditional', F(BT, 'Heading.start', "        cls.closing_sequence = (match_obj.group(3) or '').strip()\n",
@@ -119,6 +123,7 @@ VARIANTS = {
   fault('opener-flag-swapped', F(CT, 'Delimiter.__init__', 'self.open = is_opener(start, end, string)', 'self.open = is_closer(start, end, string)'), 'R-FLANK-WIRED'),
  ],
  'C07': [
+  fault('definition-scan-stops-at-bare-newline', F(BT, 'Footnote.read', "while next_line is not None and next_line.strip() != '':", "while next_line is not None and next_line != '\\n':"), 'R-DEF-ACCOUNT'),
   fault('definition-values-stdlib-unescape', F(ST, 'EscapeSequence.strip', "return tokenizer.unescape(cls.pattern.sub(r'\\1', string))", "return __import__('html').unescape(cls.pattern.sub(r'\\1', string))"), 'R-DEF-VALUE'),
   fault('label-lowercased', F(CT, 'normalize_label', "return ' '.join(text.split()).casefold()", "return ' '.join(text.split()).lower()"), 'R-LABEL-AGREE'),
   fault('label-spaces-only', F(CT, 'normalize_label', "return ' '.join(text.split()).casefold()", "return ' '.join(filter(None, text.split(' '))).casefold()"), 'R-LABEL-AGREE'),
@@ -153,6 +158,7 @@ VARIANTS = {
                                        "        pieces = []\n        pending = [token]\n        while pending:\n            current = pending.pop()\n            if current.children is None:\n                pieces.append(current.content)\n                continue\n            pending.extend(reversed(tuple(current.children)))\n        return ''.join(pieces)"), ('R-HOLE', 'child.content')),
  ],
  'C09': [
+  fault('quote-start-indent-boundary', F(BT, 'Quote.start', 'if len(line) - len(stripped) > 3:', 'if len(line) - len(stripped) >= 3:'), 'R-INDENT-DROPPED'),
   fault('assembled-lines-rstripped', F(MR, 'MarkdownRenderer.fragments_to_lines', 'yield current_line + lines[0]', 'yield (current_line + lines[0]).rstrip()'), 'R-ASSEMBLY'),
   fault('info-string-dropped', F(MR, 'MarkdownRenderer.render_fenced_code_block', 'yield indentation + token.delimiter + token.info_string', 'yield indentation + token.delimiter'), ('R-SPELL-USED', 'info_string')),
   fault('padding-not-retained', F(ST, 'InlineCode.__init__', '        self.padding = " " if not content.isspace() and content.startswith(" ") and content.endswith(" ") else ""\n        if self.padding:',
@@ -215,6 +221,7 @@ VARIANTS = {
   fault('nested-start-line-dropped', F(BT, 'Quote.read', 'tokenizer.tokenize_block(line_buffer, _token_types, start_line=start_line)', 'tokenizer.tokenize_block(line_buffer, _token_types)'), 'R-ORIGIN'),
  ],
  'C14': [
+  fault('text-escaper-keeps-ampersand', F(HR, 'HtmlRenderer.escape_html_text', '        s = s.replace("&", "&amp;")  # Must be done first!\n', ''), 'R-SANITISER'),
   fault('table-delimiter-prefix-only', F(BT, 'Table.read', 'cls.delimiter_row_pattern.fullmatch(line_buffer[1])', 'cls.delimiter_row_pattern.match(line_buffer[1])'), 'R-TABLE-DELIM'),
   fault('strikethrough-one-tilde', S(ST, 'pattern = re.compile(r"(?<!\\\\)(?:\\\\\\\\)*~~(.+?)~~", re.DOTALL)', 'pattern = re.compile(r"(?<!\\\\)(?:\\\\\\\\)*~{1,2}(.+?)~{1,2}", re.DOTALL)'), 'R-SPAN-INERT'),
   fault('thematic-4-spaces', S(BT, r"pattern = re.compile(r' {0,3}(?:([-_*])\s*?)(?:\1\s*?){2,}$')", r"pattern = re.compile(r' {0,4}(?:([-_*])\s*?)(?:\1\s*?){2,}$')"), ('R-START-INCL', 'ThematicBreak')),
